@@ -69,10 +69,13 @@ type Case struct {
 		Name  pbt.S `json:"name"`
 	} `json:"timers"`
 	Ops []Op `json:"ops"`
+	// Caps: what the recording reporters say about themselves (rec.CapsOf): advisory only
+	Caps int `json:"caps,omitempty"`
 }
 
 func gen(t *rapid.T) Case {
 	c := Case{Mode: rapid.SampledFrom([]string{"plain", "cached", "both", "test"}).Draw(t, "mode")}
+	c.Caps = rapid.SampledFrom([]int{0, 0, 0, 1, 2, 3}).Draw(t, "caps")
 	ns := rapid.IntRange(1, 3).Draw(t, "nscopes")
 	for i := 0; i < ns; i++ {
 		var s ScopeSpec
@@ -136,12 +139,12 @@ func run(c Case) (pbt.Outcome, error) {
 	var ts tally.TestScope
 	switch c.Mode {
 	case "plain":
-		opts.Reporter = &rec.Stats{L: log}
+		opts.Reporter = &rec.Stats{L: log, Caps: rec.CapsOf(c.Caps)}
 	case "cached":
-		opts.CachedReporter = &rec.Cached{L: log}
+		opts.CachedReporter = &rec.Cached{L: log, Caps: rec.CapsOf(c.Caps)}
 	case "both":
-		opts.Reporter = &rec.Stats{L: log, Child: 1}
-		opts.CachedReporter = &rec.Cached{L: log, Child: 2}
+		opts.Reporter = &rec.Stats{L: log, Child: 1, Caps: rec.CapsOf(c.Caps)}
+		opts.CachedReporter = &rec.Cached{L: log, Child: 2, Caps: rec.CapsOf(c.Caps)}
 	}
 	if c.Mode == "test" {
 		ts = tally.NewTestScope("", nil)
